@@ -5,7 +5,7 @@ import os
 import shutil
 import subprocess
 
-from vcommon import (VERIF, Inconclusive, build_harness, build_harness_asan, found_dir, parse_line, properties, report_failure,
+from vcommon import (VERIF, Inconclusive, build_fuzz, build_harness, build_harness_asan, found_dir, parse_line, properties, report_failure,
                      run_many, write_evidence)
 
 # ----------------------------------------------------------------------------------------------
@@ -131,6 +131,62 @@ def hist_search(ctx, bins, features=(), traces=False, budget=None, prop_for_run=
     return agg
 
 
+def fuzz_campaign(ctx, bins, cov, workers=16, runs=None):
+    """Coverage-guided libFuzzer/ASan campaign over the same interpreter (thorough tiers).
+    Artifacts are decoded to .ops files; one whose failure is tagged with the property (or that
+    only crashes under the sanitizer) is a violation."""
+    runs = runs or (4000 if ctx.tier == "quick" else 25000)
+    fbin = build_fuzz()
+    work = os.path.join(VERIF, ".work", "%s-fuzz-%d" % (ctx.prop, os.getpid()))
+    shutil.rmtree(work, ignore_errors=True)
+    os.makedirs(work)
+    try:
+        jobs = []
+        for i in range(workers):
+            cdir = os.path.join(work, "corpus-%d" % i)
+            adir = os.path.join(work, "art-%d" % i) + os.sep
+            os.makedirs(adir)
+            subprocess.run([bins["rel"], "seed-corpus", "--out", cdir, "--seed", str(ctx.sub_seed("corpus", i))], stdout=subprocess.DEVNULL, check=True)
+            jobs.append((i, [fbin, cdir, "-runs=%d" % runs, "-seed=%d" % (ctx.sub_seed("fuzz", i) % (1 << 31)), "-len_control=0", "-max_len=2500", "-rss_limit_mb=3000", "-timeout=120",
+                             "-artifact_prefix=" + adir, "-print_final_stats=1"]))
+        res = run_many(jobs, 6 * 3600)
+        execs = 0
+        artifacts = []
+        for i, (rc, out) in sorted(res.items()):
+            if rc is None:
+                raise Inconclusive("fuzz worker exceeded the watchdog")
+            for line in out.splitlines():
+                if line.startswith("stat::number_of_executed_units:"):
+                    execs += int(line.split()[1])
+            adir = os.path.join(work, "art-%d" % i)
+            for f in sorted(os.listdir(adir)):
+                artifacts.append((os.path.join(adir, f), out[-1500:]))
+        n_collateral = 0
+        for art, tail in artifacts:
+            base = os.path.basename(art)
+            if base.startswith(("oom-", "timeout-", "slow-unit-")):
+                continue  # resource exhaustion is never a violation
+            ops = os.path.join(found_dir(ctx.prop), "fuzz-%s.ops" % base[:40])
+            p = subprocess.run([bins["rel"], "decode", art, "--out", ops], stdout=subprocess.PIPE, stderr=subprocess.STDOUT, text=True)
+            tagged = None
+            for line in p.stdout.splitlines():
+                if line.startswith("FAIL "):
+                    tagged = parse_line(line)
+            if tagged is not None:
+                if ctx.prop in tagged.get("tags", "").split("+"):
+                    report_failure(ctx, tagged.get("sig", "?"), ops, "[libFuzzer] %s" % tagged.get("msg", ""))
+                else:
+                    n_collateral += 1
+            elif os.path.exists(ops):
+                # passes without the sanitizer: the artifact is a sanitizer report / crash
+                report_failure(ctx, "crash", ops, "[libFuzzer + ASan] input crashes under the sanitizer only; tail of the fuzzer log: %s" % tail[-600:])
+        cov["libfuzzer"] = {"workers": workers, "runs_per_worker": runs, "executions": execs, "artifacts": len(artifacts), "collateral_artifacts": n_collateral,
+                            "sanitizer": "AddressSanitizer", "note": "only approximately reproducible from -seed; the saved input is the reproducible unit"}
+        cov["evaluations"] += execs
+    finally:
+        shutil.rmtree(work, ignore_errors=True)
+
+
 def hist_coverage(ctx, agg, nreplays, rule, bins):
     ev = agg["evaluations"]
     labels = {k: {"cases": v, "fraction": round(v / ev, 4) if ev else 0} for k, v in sorted(agg["labels"].items())}
@@ -232,6 +288,11 @@ def check_c07(ctx):
     check_history(ctx, extra_step=c07_enumeration)
 
 
+def check_history_fuzz(ctx):
+    """History check whose thorough tier adds a libFuzzer / ASan campaign."""
+    check_history(ctx, extra_step=(lambda c, b, cov: fuzz_campaign(c, b, cov)) if ctx.tier == "thorough" else None)
+
+
 HIST_RULES["C17"] = "histories (harness built with feature events) with both creation paths incl. refused create_within_capacity, all four destroy key kinds at both levels, ecs_iter_destroy!, destroys of stale handles, per-archetype and world-level clear_events at arbitrary points, clones; after every step the per-archetype and world-level event iterators are compared (as multisets) with the model's logs and size_hint is checked before every next(); non-trivial = an observation with >= 2 archetypes with non-empty and >= 1 with empty logs, plus a destroy through a dynamic key or ecs_iter_destroy!, plus a clear; distinct = hash of the decoded op list"
 
 
@@ -331,6 +392,8 @@ def check_c03(ctx):
     agg = hist_search(ctx, bins, budget=budget)
     cov = hist_coverage(ctx, agg, nfiles, rule_of("C03"), bins)
     cov["sanitizers"] = ["AddressSanitizer (nightly -Zsanitizer=address, release profile, debug assertions off) on the 'asan' build"]
+    if ctx.tier == "thorough":
+        fuzz_campaign(ctx, bins, cov)
     write_evidence(ctx, "exploration", cov, HIST_ASSUMPTIONS + [
         "allowed clean panics on forged probes: 'invalid entity handle', 'invalid entity type', 'invalid entity conversion', debug_assert in from_any_unchecked (DESIGN.md soundness decision 3)",
         "the state after a forged probe is compared with the state before it (full probe suite, representation invariant)"])
@@ -1007,5 +1070,7 @@ def check_c08(ctx):
 
 
 HANDLERS = {"C07": check_c07, "C19": check_c19, "C12": check_c12, "C08": check_c08, "C17": check_c17, "C14": check_c14, "C03": check_c03, "C10": check_c10, "C11": check_c11, "C05": check_program_prop, "C15": check_program_prop, "C16": check_program_prop, "C18": check_program_prop}
-for _p in ("C01", "C02", "C04", "C06", "C09", "C13"):
+for _p in ("C02", "C06", "C09"):
     HANDLERS[_p] = check_history
+for _p in ("C01", "C04", "C13"):
+    HANDLERS[_p] = check_history_fuzz
